@@ -314,6 +314,7 @@ pub fn features(cfg: &WorldCfg, ops: &[Op], out: &Outcome) -> Vec<String> {
         ("mp-println", |o| matches!(o, Op::MpPrintln(_))),
         ("suspend", |o| matches!(o, Op::Suspend(..) | Op::MpSuspend(_))),
         ("remove", |o| matches!(o, Op::Remove(_))),
+        ("re-add", |o| matches!(o, Op::ReAdd(_))),
         ("mp-clear", |o| matches!(o, Op::MpClear)),
         ("drop", |o| matches!(o, Op::DropBar(_) | Op::DropOne(_))),
         ("set-style", |o| matches!(o, Op::Style(..))),
